@@ -238,7 +238,8 @@ def flow_part(ctx):
         cfg["endpoint"][0]["rate_limits"] = ["rl"]
         cfg_path = cfggen.write(os.path.join(d, "acmed.toml"), cfg)
         dmn = flow.Daemon(cfg_path)
-        flow.wait_for(lambda: len(flow.post_ops(log)) >= len(certs) or not dmn.alive(), 150)
+        flow.wait_progress(lambda: len(flow.post_ops(log)) >= len(certs) or not dmn.alive(),
+                           lambda: len(ca.log), idle=60, cap=900)
         dmn.stop()
         ca.stop()
         reqs = [e for e in ca.log if e["kind"] == "req"]
@@ -262,7 +263,7 @@ def flow_part(ctx):
         for k in set(r["kinds"]):
             ctx.count("flow:kind:" + k, r["kinds"].count(k))
         if not r["done"]:
-            ctx.broke("harness", "the rate-limited issuance did not finish within 120 s", {"sc": sc, "n": len(r["arrivals"])})
+            ctx.broke("harness", "the rate-limited issuance stopped making requests before it finished", {"sc": sc, "n": len(r["arrivals"])})
         if not v["holds"]:
             gaps = [(r["arrivals"][i + sc["n"]] - r["arrivals"][i]) / 1e9 for i in range(len(r["arrivals"]) - sc["n"])]
             i = min(range(len(gaps)), key=lambda k: gaps[k])
